@@ -125,6 +125,11 @@ def to_bool_term(v):
         return True
     if isinstance(v, SOpaque):
         return opaque_pred("truthy")(v.t)
+    if type(v).__name__ == "SSet":
+        import z3 as _z
+        from .values import TOpaque
+        e = _z.Const("set_elem", TOpaque().sort())
+        return _z.Exists([e], v.member(e))
     raise Unsupported(f"truthiness of {v!r}")
 
 
